@@ -73,12 +73,15 @@ fn gen_model(r: &mut Rng, kind: &str) -> LinearModel {
     }
     let coefs = [0.0, 1.0, -1.0, 2.0, -2.0, 1.0, 3.0, 0.5, -3.0];
     let nr = if kind == "shadow" { 1 + r.below(3) } else { r.below(5) };
+    let suffixy = kind == "shadow" && r.chance(1, 6);
     for j in 0..nr {
         let c: Vec<f64> = (0..nv).map(|_| *r.pick(&coefs)).collect();
         let cmp = match r.below(4) { 0 | 1 => Comparison::LessOrEqual, 2 => Comparison::GreaterOrEqual, _ => Comparison::Equal };
         let rhs = *r.pick(&[0.0, 1.0, 2.0, -1.0, 4.0, -2.0, 3.0, 6.0, 5.0, -4.0]);
         if (kind == "shadow" && !r.chance(1, 4)) || (kind != "shadow" && r.chance(1, 3)) {   // shadow models: unnamed rows interspersed with named ones
-            m.add_named_constraint(c, cmp, rhs, &format!("r{j}")); } else { m.add_constraint(c, cmp, rhs); }
+            // now and then names of the shape the linearizer's de-duplication produces (`cap`, `cap__2`, `cap__3`) next to each other
+            let nm = if kind == "shadow" && suffixy { if j == 0 { "cap".to_string() } else { format!("cap__{}", j + 1) } } else { format!("r{j}") };
+            m.add_named_constraint(c, cmp, rhs, &nm); } else { m.add_constraint(c, cmp, rhs); }
     }
     let mut obj: Vec<f64> = (0..nv).map(|_| *r.pick(&coefs)).collect();
     // integer models: now and then the first variable is pinned to 1 and carries a large objective coefficient, so the optimum
@@ -87,6 +90,8 @@ fn gen_model(r: &mut Rng, kind: &str) -> LinearModel {
     // bigint (C15): a third of the models have a small objective (|value| < 1 is where a relative gap and an absolute one part)
     let small = kind == "bigint" && r.chance(1, 3);
     if small { for c in obj.iter_mut() { *c *= 0.03125; } }
+    // shadow models: costs of very different magnitudes (prices of 1e4 and of 1e-5 are prices too)
+    if kind == "shadow" && r.chance(1, 4) { let f = *r.pick(&[10000.0, 0.00005, 25000.0, 0.000125]); for c in obj.iter_mut() { *c *= f; } }
     let dir = match r.below(if kind == "int" || kind == "mixed" { 7 } else { 6 }) { 0 | 1 | 2 => OptimizationType::Min, 3 | 4 | 5 => OptimizationType::Max, _ => OptimizationType::Satisfy };
     m.set_objective(obj, dir);
     // a constant term in the objective (what `min 2x + 10` compiles to), for both directions
